@@ -1,9 +1,6 @@
 use crate::{
-    layouts::{VecZnx, VecZnxToMut, VecZnxToRef, ZnxInfos},
-    reference::{
-        vec_znx::{vec_znx_rotate_assign, vec_znx_switch_ring},
-        znx::{ZnxCopy, ZnxRotate, ZnxSwitchRing, ZnxZero},
-    },
+    layouts::{VecZnx, VecZnxToMut, VecZnxToRef, ZnxInfos, ZnxView, ZnxViewMut},
+    reference::znx::{ZnxCopy, ZnxRotate, ZnxSwitchRing, ZnxZero},
 };
 
 pub fn vec_znx_merge_rings_tmp_bytes(n: usize) -> usize {
@@ -37,10 +34,21 @@ where
         assert_eq!(a.len(), _n_out / _n_in);
     }
 
-    a.iter().for_each(|ai| {
-        vec_znx_switch_ring::<_, _, ZNXARI>(&mut res, res_col, ai, a_col);
-        vec_znx_rotate_assign::<_, ZNXARI>(-1, &mut res, res_col, tmp);
-    });
+    // Coefficient k of part i lands at index k * a.len() + i (the inverse of `vec_znx_split_ring`).
+    // `vec_znx_switch_ring` overwrites its output, so the parts cannot be accumulated through it.
+    let gap: usize = a.len();
+    let _ = tmp;
 
-    vec_znx_rotate_assign::<_, ZNXARI>(a.len() as i64, &mut res, res_col, tmp);
+    for j in 0..res.size() {
+        ZNXARI::znx_zero(res.at_mut(res_col, j));
+        for (i, ai) in a.iter().enumerate() {
+            let ai: VecZnx<&[u8]> = ai.to_ref();
+            if j < ai.size() {
+                let dst: &mut [i64] = res.at_mut(res_col, j);
+                for (k, x) in ai.at(a_col, j).iter().enumerate() {
+                    dst[k * gap + i] = *x;
+                }
+            }
+        }
+    }
 }
